@@ -148,7 +148,9 @@ class PDHG(Optimizer):
         Return ``False`` if a ``NaN`` or ``Inf`` value is encountered in
         a solver working variable.
         """
-        return snp.all(snp.isfinite(self.x)) and snp.all(snp.isfinite(self.z))
+        return not snp.any(snp.logical_not(snp.isfinite(self.x))) and not snp.any(
+            snp.logical_not(snp.isfinite(self.z))
+        )
 
     def _objective_evaluatable(self):
         """Determine whether the objective function can be evaluated."""
